@@ -4,6 +4,7 @@ import (
 	"bytes"
 	"encoding/json"
 	"fmt"
+	"io"
 	"math"
 	"math/rand"
 	"reflect"
@@ -320,7 +321,11 @@ func runC18(c *run.Ctx) {
 		}
 		ggql.Sort = true
 		var kb bytes.Buffer
-		_ = ggql.WriteSDLValue(&kb, v, 0)
+		if pv, _ := run.Protect(func() { _ = ggql.WriteSDLValue(&kb, v, 0) }); pv != nil {
+			c.Eval(fmt.Sprintf("panic %d", i), true)
+			c.Violation("c18-sdl-write", rec{Value: fmt.Sprintf("%#v", v), Indent: 0, Sort: true, Mode: "sdl-write", Got: fmt.Sprint(pv)})
+			continue
+		}
 		key := kb.String()
 		nontriv := isColl(v) || strings.ContainsAny(key, "\\")
 		c.Eval(key, nontriv)
@@ -367,6 +372,17 @@ func runC18(c *run.Ctx) {
 						}
 					}
 					c.Count("sdl_roundtrips", 1)
+					if srt {
+						// the same text read through ParseValue from a source that delivers it in pieces: one byte per Read,
+						// now and then nothing at all (0, nil - "try again", not the end), the last byte together with io.EOF
+						var rb interface{}
+						sr := &c18StallReader{data: []byte(sb.String()), r: rand.New(rand.NewSource(int64(i)*31 + int64(indent))), eofWithLast: i%2 == 0}
+						pv, _ = run.Protect(func() { rb, perr = ggql.ParseValue(sr) })
+						c.Count("sdl_roundtrips_through_a_stalling_reader", 1)
+						if pv != nil || perr != nil || !reflect.DeepEqual(normEmpty(rb), normEmpty(v)) {
+							fail("sdl-roundtrip-stalling-reader", sb.String(), fmt.Sprintf("%#v (reader stalled at offsets %v)", rb, sr.stalled), perr)
+						}
+					}
 				}
 				// JSON
 				var jb bytes.Buffer
@@ -505,4 +521,36 @@ func collapseFFFD(v interface{}) interface{} {
 		return o
 	}
 	return v
+}
+
+// c18StallReader hands its data out one byte per Read; before about every eighth byte it first returns (0, nil) once, which
+// the io.Reader contract defines as "nothing happened" (not end of input).
+type c18StallReader struct {
+	data        []byte
+	pos         int
+	r           *rand.Rand
+	eofWithLast bool
+	justStalled bool
+	stalled     []int
+}
+
+func (s *c18StallReader) Read(p []byte) (int, error) {
+	if s.pos >= len(s.data) {
+		return 0, io.EOF
+	}
+	if len(p) == 0 {
+		return 0, nil
+	}
+	if !s.justStalled && s.r.Intn(8) == 0 {
+		s.justStalled = true
+		s.stalled = append(s.stalled, s.pos)
+		return 0, nil
+	}
+	s.justStalled = false
+	p[0] = s.data[s.pos]
+	s.pos++
+	if s.pos == len(s.data) && s.eofWithLast {
+		return 1, io.EOF
+	}
+	return 1, nil
 }
